@@ -207,8 +207,11 @@ def connect(R):
     first = [m for m in g2.live_nodes() if m.kind == 'stmt' and isinstance(m.ast, ast.Assign) and isinstance(m.ast.value, ast.List)
              and len(m.ast.value.elts) == 1]
     ok = False
+    rd2_ = ReachingDefs(g2)
     for m in first:
         e = m.ast.value.elts[0]
+        if isinstance(e, ast.Name):
+            e = rd2_.origin(m, e)[0]          # request line kept in a local first
         inner = e.func.value if isinstance(e, ast.Call) and isinstance(e.func, ast.Attribute) and e.func.attr == 'encode' else None
         if isinstance(inner, ast.Call) and U(inner.func) == "'CONNECT {}:{} HTTP/1.1'.format" and \
                 [U(a) for a in inner.args] == bf.params[:2]:
@@ -360,6 +363,14 @@ def statusline(R, RID='C19.gate'):
          'ProxyResponse.__init__ is %s' % (pi.qual if pi else None), func=q, node=None, construct='ProxyResponse parser')
     st = [n for n in g.live_nodes() if n.kind == 'stmt' and isinstance(n.ast, ast.Assign)
           and any(U(t) == 'self.status_code' for t in n.ast.targets) and isinstance(n.ast.value, ast.Call)]
+    if not st:
+        # parsed into a local first:  code = int(...) / code = None;  self.status_code = code
+        for n0 in g.live_nodes():
+            if n0.kind == 'stmt' and isinstance(n0.ast, ast.Assign) and any(U(t) == 'self.status_code' for t in n0.ast.targets) \
+                    and isinstance(n0.ast.value, ast.Name):
+                for d in rd.defs_at(n0, n0.ast.value.id):
+                    if d.kind == 'stmt' and isinstance(d.ast, ast.Assign) and isinstance(d.ast.value, ast.Call):
+                        st.append(d)
     need(len(st) == 1, 'Response.__init__: status_code = int(...) not found')
     n = st[0]
 
